@@ -218,7 +218,7 @@ reg(dict(
 
 
 # =============================================================================================
-# group "inbound": C03 C04 C11  (Inbound.tla + ProtoMon.tla)
+# group "inbound": C03 C04 C11  (Endpoint.tla + ProtoMon.tla)
 
 INB_CFG = """SPECIFICATION ExportSpec
 CONSTANTS
@@ -401,7 +401,7 @@ reg(dict(
     name="inbound", judge="ProtoJudge", configs=inb_configs, extra_runs=inb_random, signature=inb_signature,
     conform=dict(module="EndpointConform", tok2rec=inb_tok2rec, tail=1, project=inb_project),
     level={}, quota=300,
-    rule="every transition of the bounded TLC state graph of Inbound.tla (packet sequences x handler "
+    rule="every transition of the bounded TLC state graph of Endpoint.tla / MC_Endpoint (packet sequences x handler "
          "completion orders x immediate/deferred handlers) is a replay candidate; quick replays a seeded sample, "
          "thorough all; plus random long runs; every run ends with `drain` (all gates opened, final check)",
     assumptions=[
